@@ -62,6 +62,19 @@ def replay(col, case):
         pass
     except Exception as ex:
         col.violation("inconsistent-shapes-raise-" + type(ex).__name__, dict(rep, observed=repr(ex)[:200]))
+    # ... also when the number of values happens to be a multiple of n that broadcasts against y_tau
+    for label, yt, bad, tt in (("k*n-values-vs-(n,k)", y_tau, np.tile(obs, 3), taus),
+                               ("(n,k)-values-vs-(n,k)", y_tau, np.tile(obs.reshape(n, 1), (1, 3)), taus),
+                               ("2n-values-vs-(n,1)", y_tau[:, :1].copy(), np.tile(obs, 2), taus[:1])):
+        try:
+            r = scores.quantile_score(yt, bad, tt)
+            col.violation("inconsistent-shapes-accepted", dict(rep, observed="no ValueError for " + label,
+                                                               result_shape=list(np.shape(r))))
+        except ValueError:
+            pass
+        except Exception as ex:
+            col.violation("inconsistent-shapes-raise-" + type(ex).__name__, dict(rep, observed=repr(ex)[:200]))
+        col.count(1)
     # the constant estimate minimising the mean score is a tau-quantile: argmin set over the candidates = TLC's
     V = 4
     for k in range(3):
@@ -99,6 +112,14 @@ def replay(col, case):
         g2 = call(name, fn, est[perm] * 4.0, truth[perm] * 4.0)
         if got is not None and g2 is not None and not close(g2, got):
             col.violation(name + "-not-invariant", dict(rep, observed=[float(got), float(g2)]))
+        # ... also a negative one (all-negative truths), and factors of either sign per sample (mixed-sign truths)
+        alt = np.where(np.arange(n) % 2 == 0, -2.0, 1.0)
+        for label, fac in (("negative-scale", -2.0), ("mixed-sign-truth", alt)):
+            g3 = call(name, fn, est * fac, truth * fac)
+            col.count(1)
+            if got is not None and g3 is not None and not close(g3, got):
+                col.violation(name + "-not-invariant-" + label, dict(rep, truth=(truth * fac).tolist(), expected=float(got),
+                                                                     observed=float(g3)))
     # p percent too high / too low
     for p in (25.0, 50.0):
         hi, lo = truth * (1 + p / 100), truth * (1 - p / 100)
